@@ -288,7 +288,8 @@ Definition st_check (t : s_time) : bool :=
    && (time_offset (denote_time t) =? timeline t)
    && forallb plain_char (render_time t)
    && time_shape (render_time t)
-   && text_ok (render_time t)).
+   && text_ok (render_time t)
+   && forallb (fun c => (48 <=? c)%N) (render_time t)).
 
 Lemma st_sweep_true :
   range_forallb (fun s => range_forallb (fun h => range_forallb (fun m =>
@@ -324,11 +325,12 @@ Section TimeFacts.
     /\ time_offset (denote_time t) = timeline t
     /\ forallb plain_char (render_time t) = true
     /\ time_shape (render_time t) = true
-    /\ text_ok (render_time t) = true.
+    /\ text_ok (render_time t) = true
+    /\ forallb (fun c => (48 <=? c)%N) (render_time t) = true.
   Proof.
     pose proof C as H. unfold st_check in H. rewrite W in H. cbn [negb orb] in H.
     repeat (apply andb_true_iff in H as [H ?]).
-    split; [|split; [|split; [|split; [|split]]]]; try assumption.
+    split; [|split; [|split; [|split; [|split; [|split]]]]]; try assumption.
     - destruct (parse_time (render_time t)) as [t'| |]; try discriminate.
       apply time_eqb_full_eq in H. congruence.
     - apply valid_time_b_spec. assumption.
@@ -348,6 +350,8 @@ Proof. intros W. apply (st_facts t W). Qed.
 Lemma render_time_shape t : wf_time t = true -> time_shape (render_time t) = true.
 Proof. intros W. apply (st_facts t W). Qed.
 Lemma render_time_text_ok t : wf_time t = true -> text_ok (render_time t) = true.
+Proof. intros W. apply (st_facts t W). Qed.
+Lemma render_time_ge48 t : wf_time t = true -> forallb (fun c => (48 <=? c)%N) (render_time t) = true.
 Proof. intros W. apply (st_facts t W). Qed.
 
 (* Time.ToString writes a specification spelling (no padding, no 24:00), and that spelling denotes the time *)
@@ -721,4 +725,33 @@ Lemma duration_roundtrip d : - max_int64 <= d_mins d <= max_int64 ->
 Proof.
   intros Hb. destruct (canon_dur_facts d Hb) as [W D].
   rewrite print_duration_render, parse_render_dur by exact W. rewrite D. reflexivity.
+Qed.
+
+(* ================= statements for C16 ================= *)
+
+Lemma decimal_roundtrip z : 0 <= z -> digits_val (dec_nonneg z) = z /\ all_digits (dec_nonneg z) = true /\ dec_nonneg z <> [].
+Proof.
+  intros H. rewrite <- (decimal_dec_nonneg z H). split; [apply decimal_value; exact H|]. split; [apply decimal_digits; exact H|apply decimal_nonempty].
+Qed.
+
+Lemma duration_overflow_witness : parse_duration b!"9223372036854775808m" = Crash CAtoiRange
+  /\ parse_duration b!"153722867280912931h" = Crash CIntegerOverflow
+  /\ parse_duration b!"153722867280912930h8m" = Crash CIntegerOverflow.
+Proof. repeat split; vm_compute; reflexivity. Qed.
+
+(* a date literal of the right shape that is not a Gregorian date is rejected *)
+Lemma parse_render_date_invalid d : 0 <= sd_year d <= 9999 -> 0 <= sd_month d <= 99 -> 0 <= sd_day d <= 99 ->
+  wf_date d = false -> parse_date (render_date d) = Err EUnrepresentableDate.
+Proof.
+  intros Hy Hm Hd W. rewrite wf_date_valid_ymd in W.
+  pose proof (four_digits_digits _ Hy) as D4. pose proof (two_digits_digits _ Hm) as D2. pose proof (two_digits_digits _ Hd) as D2'.
+  pose proof (four_digits_value _ Hy) as V4. pose proof (two_digits_value _ Hm) as V2. pose proof (two_digits_value _ Hd) as V2'.
+  unfold render_date, four_digits, two_digits in *. cbn [app].
+  cbn [forallb] in D4, D2, D2'.
+  change 45%N with ch_minus. change 47%N with ch_slash.
+  rewrite (parse_date_digits _ _ _ _ _ _ _ _ (sd_dash d)).
+  - rewrite V4, V2, V2', W. reflexivity.
+  - cbn [forallb]. repeat (apply andb_true_iff in D4 as [? D4]). repeat (apply andb_true_iff in D2 as [? D2]).
+    repeat (apply andb_true_iff in D2' as [? D2']).
+    rewrite H, H0, H1, H2, H3, H4, H5, H6. reflexivity.
 Qed.
